@@ -541,7 +541,16 @@ func vRunConnScenario(sc *vScenario) (out []vOutEvent, info map[string]interface
 	}
 	// the peer script is an ordered environment action
 	pi := 0
-	s.AddEnv("peer", len(sc.Peer), func() bool { return pi < len(sc.Peer) && r.registered() }, func() {
+	s.AddEnv("peer", len(sc.Peer), func() bool {
+		if pi >= len(sc.Peer) || !r.registered() {
+			return false
+		}
+		// a draining peer reads when there is something to read
+		if sc.Peer[pi][0].(string) == "drain" && r.peerPending() <= 0 {
+			return false
+		}
+		return true
+	}, func() {
 		op := sc.Peer[pi]
 		pi++
 		switch op[0].(string) {
